@@ -43,7 +43,7 @@ func (p *Program) miniProgram(src string) (*Program, error) {
 		return nil, err
 	}
 	q := &Program{Fset: fset, Types: tpkg, Info: info, Files: []*ast.File{f}, Prog: spkg.Prog, SPkg: spkg,
-		Funcs: map[string]*ssa.Function{}, cells: map[*ssa.Alloc]*cellInfo{}, binds: map[*ssa.FreeVar]ssa.Value{}, transp: map[*ssa.Function]bool{}, GOOS: p.GOOS, GOARCH: p.GOARCH}
+		Funcs: map[string]*ssa.Function{}, cells: map[*ssa.Alloc]*cellInfo{}, binds: map[*ssa.FreeVar]ssa.Value{}, transp: map[*ssa.Function]bool{}, retOverride: map[*ssa.Return][]ssa.Value{}, retOwner: map[*ssa.Return]*ssa.Return{}, GOOS: p.GOOS, GOARCH: p.GOARCH}
 	var add func(fn *ssa.Function)
 	add = func(fn *ssa.Function) {
 		if fn == nil || fn.Blocks == nil {
